@@ -51,7 +51,8 @@ Theorem C05_fragment_alloc :
 Proof. exact C05_alloc_lemma. Qed.
 Print Assumptions C05_fragment_alloc.
 
-(* ... and with ONE pair of constants for all fragment decoders of the current tree: 36 * len + 2097168 *)
+(* ... and with ONE pair of constants for all fragment decoders of the current tree: 48 * len + 4194260
+   (tagged choices add up the constants of their branches) *)
 Theorem C05_fragment_alloc_uniform :
   forall name enc dec ctxs, In (Fragment name enc dec ctxs) packets ->
   forall c, In c ctxs -> forall bs,
@@ -61,5 +62,5 @@ Print Assumptions C05_fragment_alloc_uniform.
 
 (* non-vacuity / the constants are what the comment says (recomputed against the regenerated layouts;
    a decoder that starts to pre-allocate by an unchecked count changes them) *)
-Example C05_constants : (max_kcost <=? 64) && (max_ucost <=? 4194304) = true.
+Example C05_constants : (max_kcost <=? 64) && (max_ucost <=? 8388608) = true.
 Proof. vm_compute. reflexivity. Qed.
